@@ -126,8 +126,10 @@ class WebSocketCodec(BaseComponent):
             # remove bytes of processed frame from byte _buffer
             offset += payload_length
             data = data[offset:]
-            # if there have been parts already, combine
-            msg = self._pending_payload + msg
+            # if there have been parts already, combine (control frames may
+            # appear in the middle of a fragmented message and are not part of it)
+            if opcode < 8:
+                msg = self._pending_payload + msg
             if final:
                 if opcode < 8:
                     # if text or continuation of text, convert
